@@ -43,6 +43,7 @@ TRUSTED_EXTRA = ['harness/c07.py: renders the alphabet of line kinds to real syn
                  '(fail-closed if it does not end at a line boundary)']
 
 IMPORTS = ['Model.Doc', 'Spec.C07']
+EXTRA_PROPS = ['C07C01']  # composition C07 -> C01 (Props/C07C01.v): built, assumption-checked and counted with C07
 SECS = ['conf', 'setup', 'act', 'before-assert', 'assert', 'cleanup']
 SEC_C = {'conf': 'SConf', 'setup': 'SSetup', 'act': 'SAct', 'before-assert': 'SBefore', 'assert': 'SAssert', 'cleanup': 'SCleanup'}
 NONACT = [s for s in SECS if s != 'act']
